@@ -115,6 +115,19 @@ def relayouts(src, rnd):
             n = (len(l) - len(l.lstrip(" "))) // 4
             acc.append(unit * n + l.lstrip(" "))
         out[f"indent-unit-{tag}"] = "\n".join(acc) + "\n"
+    # keywords written tight against a parenthesised operand: `if(x > 3):`, `while(n < 5):`, `return(a)` (same AST)
+    import re as _re
+    acc = []
+    for l in lines:
+        m = _re.match(r"^(\s*)(if|elif|while) (.+):$", l)
+        r = _re.match(r"^(\s*)return (.+)$", l)
+        if m and m.group(3) != "True":
+            acc.append(f"{m.group(1)}{m.group(2)}({m.group(3)}):")
+        elif r:
+            acc.append(f"{r.group(1)}return({r.group(2)})")
+        else:
+            acc.append(l)
+    out["keyword-tight-against-parenthesis"] = "\n".join(acc) + "\n"
     out["spaces-before-colon"] = "\n".join((l.rstrip()[:-1] + " :") if l.rstrip().endswith(":") else l for l in lines) + "\n"
     return out
 
@@ -145,6 +158,10 @@ DROP_PROBES = {
     "return-at-top-level": ("x = 1\nreturn x\n", "return"),
     "break-in-plain-loop": ("x = 0\nwhile x < 9:\n    x = x + 1\n    if x > 3:\n        break\n", "break"),
     "pass": ("x = 1\nif x > 0:\n    pass\n", None),
+    "return-tight-against-parenthesis": ("def ten():\n    return(10)\nr = ten()\n", "return"),
+    "return-tight-against-minus": ("def minus():\n    return-1\nr = minus()\n", "return"),
+    "return-tight-against-string": ("def word():\n    return'ab'\nr = word()\n", "return"),
+    "return-followed-by-tab": ("def seven():\n    return\t7\nr = seven()\n", "return"),
 }
 ALLOW_LIST = {"pass"}
 
@@ -253,6 +270,34 @@ def extra_obligations(mods, tier, seed):
     out.append({"name": "C07/no-silent-drop/every-device-method-at-every-nesting", "status": "discharged" if not vanished else "sat", "backend": "enum",
                 "where": f"{n_calls} (statement-form device method or Core helper, nesting) pairs: the call line contributes an IR node (the IR changes when it is removed), or the call is rejected",
                 "time": round(time.time() - t1, 3), "replay": {"vanished": vanished[:6], "count": len(vanished)}, "replay_confirmed": bool(vanished)})
+    # (2d) a statement written in the `while True:` body is executed in every pass: a first binding there (constant or not) is an assignment
+    #      inside loop(), not only an initialiser of the global
+    t1 = time.time()
+    LOOP_STMTS = {"int-constant": ("x = 0", "x"), "tuple-of-constants": ("lo, hi = 2, 5", "lo"), "string-constant": ("s = 'a'", "s"), "float-constant": ("f = 1.5", "f"),
+                  "bool-constant": ("b = True", "b"), "constant-expression": ("y = 3 + 4", "y"), "negative-constant": ("z = -1", "z"), "from-earlier-name": ("w = k + 1", "w")}
+    bad = []
+    for sname, (stmt, var) in LOOP_STMTS.items():
+        for pos in ("first", "after-a-call", "second-binding"):
+            body = {"first": [stmt, f"{var} = {var} + 1" if sname not in ("string-constant", "bool-constant") else "mon.write(1)", "mon.write(2)"],
+                    "after-a-call": ["mon.write(1)", stmt, "mon.write(2)"],
+                    "second-binding": [stmt, "mon.write(1)", stmt.replace("= 0", "= 9") if sname == "int-constant" else stmt]}[pos]
+            src = ("from Reduino.Communication import SerialMonitor\nmon = SerialMonitor(9600)\nk = 4\nwhile True:\n" + "".join("    " + l + "\n" for l in body))
+            try:
+                cpp = E.emit(P.parse(src))
+            except (ValueError, SyntaxError):
+                continue
+            except Exception as ex:
+                bad.append({"statement": stmt, "position": pos, "problem": f"{type(ex).__name__}: {ex}"})
+                continue
+            loop_txt = cpp[cpp.index("void loop()"):] if "void loop()" in cpp else ""
+            import re as _re2
+            n_assign = len(_re2.findall(rf"(?<![\w.]){var} = ", loop_txt))
+            want = sum(1 for l in body if l.split("=")[0].replace(" ", "").split(",")[0] == var and "=" in l)
+            if n_assign < want:
+                bad.append({"statement": stmt, "position": pos, "script": src, "problem": f"{want} assignment(s) to `{var}` in the loop body, {n_assign} in loop()"})
+    out.append({"name": "C07/structure/main-loop-statements-stay-in-the-loop", "status": "discharged" if not bad else "sat", "backend": "enum",
+                "where": f"{len(LOOP_STMTS)} first-binding statements x 3 positions in the `while True:` body: each assignment written in the body is an assignment inside loop()",
+                "time": round(time.time() - t1, 3), "replay": {"failing": bad[:4]}, "replay_confirmed": bool(bad)})
     # (2c) every typed variant of a helper has the block structure of the one Python function it comes from: the IR bodies of all
     #      variants of a name have the same tree of statement kinds (types and expressions may differ, blocks may not), and that tree
     #      nests as deep as Python's AST of the def
